@@ -44,6 +44,25 @@ DEVIATIONS = {
     'ack_per_key': (['C11'],
                     'a SETTINGS ACK applies one pending value of EVERY key instead of the changes of the one frame it answers '
                     '(ACK of the initial frame applies a later update_settings)'),
+    'frame_size_limit_snapshot': (['C21', 'C01'],
+                                  'the inbound frame-size limit is copied once per receive_data() call: a DATA frame that follows, in '
+                                  'the same call, the SETTINGS ACK that raised MAX_FRAME_SIZE is refused with FRAME_SIZE_ERROR '
+                                  'although it is within the limit now in force (delivered in two calls it is accepted); found by '
+                                  'trace validation of recorded client/server traces'),
+    'hpack_size_update_dropped': (['C13', 'C01'],
+                                  'after the peer announced HEADER_TABLE_SIZE = a and then a value equal to the one in use, the '
+                                  'HPACK encoder never signals the change (its "resized" flag is cleared by the second assignment): '
+                                  'a peer that lowered its table size then refuses the next header block ("Encoder did not shrink '
+                                  'table size")'),
+    'hpack_size_update_intermediate': (['C13', 'C01'],
+                                       'after several HEADER_TABLE_SIZE changes between two header blocks the HPACK encoder signals '
+                                       'every intermediate size instead of the smallest and the last (RFC 7541 4.2): a size above the '
+                                       'value the peer has meanwhile acknowledged makes the peer refuse the block'),
+    'push_bypasses_stream_limit': (['C10'],
+                                   'a pushed stream is opened (response HEADERS sent on a reserved-local stream, or received on a '
+                                   'reserved-remote one) without any check against MAX_CONCURRENT_STREAMS: more streams are open '
+                                   'than the limit allows (found by trace validation: P_C10_OutboundWithinPeerLimit failed on a '
+                                   'recorded random trace)'),
     'setting_id_truncated': (['C02', 'C11'],
                              'update_settings with a setting identifier above 255 emits a SETTINGS frame carrying only the low 8 '
                              'bits of the identifier (the hyperframe serialiser masks it): update_settings({0x104: n}) tells the '
